@@ -19,7 +19,7 @@ func init() {
 		ID:        "C18",
 		Level:     "exploration",
 		Technique: "bounded exhaustive enumeration of all strings over a 10-atom alphabet, each run through the real metric functions, cells and text renderer",
-		Rule: "all strings over the alphabet {LF, a, space, e-acute, lone combining acute, fullwidth w, zero-width space, woman-ZWJ-girl emoji sequence, invalid byte 0xff, TAB} " +
+		Rule: "family twin-texts: a plain cell and a size-declaring cell holding byte-identical text in one table (measurements must not leak between cells), 4 texts x declared sizes x positions x 2 decorations, compared with the reference renderer; family strings: all strings over the alphabet {LF, a, space, e-acute, lone combining acute, fullwidth w, zero-width space, woman-ZWJ-girl emoji sequence, invalid byte 0xff, TAB} " +
 			"up to length 5 (quick) / 7 (thorough), enumerated completely; a case is non-trivial when the string contains a line feed or a non-ASCII/zero-width atom; distinct by string value",
 		Assumptions: []string{
 			"display width is the library's own measure (length.StringCells); RUNEWIDTH_EASTASIAN=0 LC_ALL=C pinned (thorough repeats nothing under East-Asian width: covered by C03's configuration sweep)",
@@ -32,6 +32,32 @@ func init() {
 }
 
 func runC18(x *X) {
+	// the layout and emit passes must also agree for a plain cell whose text is shared, byte for byte,
+	// with a cell whose item declares its own size (measurements must not leak between cells)
+	twin := []string{"identical-long-text-0123456789", "short", "é-wide-ｗｗｗｗｗｗｗｗｗｗ", "two\nlines-identical-0123456789"}
+	x.Explore("twin-texts", ExploreOpts{ShardDepth: 2, Bound: "4 texts x declared width {1, text+3} / height {none, lines+2} on a sibling cell with identical text x position x 2 decorations"}, func(c *Chooser) {
+		text := twin[c.Choose(len(twin))]
+		a := TCell{Text: text}
+		tw, nl := a.width(), len(a.lines())
+		a.DeclW = []*int{ip(1), ip(tw + 3)}[c.Choose(2)]
+		a.DeclH = []*int{nil, ip(nl + 2)}[c.Choose(2)]
+		b := TCell{Text: text}
+		order := c.Choose(3)
+		dc := []DecorChoice{namedDecor("ascii-simple"), namedDecor("utf8-heavy")}[c.Choose(2)]
+		tg := &TGrid{HasHeader: true, Header: []TCell{{Text: "h1"}, {Text: "a header that is much wider than every cell below it, really"}}}
+		switch order {
+		case 0:
+			tg.Rows = []TRow{{Cells: []TCell{a, b}}}
+		case 1:
+			tg.Rows = []TRow{{Cells: []TCell{b, a}}}
+		default:
+			tg.Rows = []TRow{{Cells: []TCell{a}}, {Cells: []TCell{{Text: "x"}, b}}}
+		}
+		c.Logf("decoration=%s table=%s", dc.Name, tg)
+		x.Transition(1)
+		x.Nontrivial(dc.Name + tg.String())
+		compareTextTable(x, "C18", tg, dc, []string{"twin_texts"})
+	})
 	maxLen := x.Pick(5, 7)
 	ascii := "ascii-simple"
 	x.Explore("strings", ExploreOpts{ShardDepth: 3, Bound: fmt.Sprintf("all strings of <=%d atoms over %d atoms", maxLen, len(c18Atoms))}, func(c *Chooser) {
